@@ -17,29 +17,17 @@
 (* sets agree with the node graph and lexical ownership) are evaluated     *)
 (* once per program (StaticOK).                                            *)
 (***************************************************************************)
-EXTENDS MiniPy
-Claims == JsonDeserialize(IOEnv.CLAIM_FILE)
+EXTENDS MiniPyMon
 VARIABLES lastStk,   \* per activation of the call stack: last node executed (0 = entry/arguments node)
           resync,    \* per activation: the next node is reached by an unmodelled (exempt) transfer
           bad        \* latched description of the first violation of this execution
 mvars == <<vars, lastStk, resync, bad>>
 
-CallIdxs(c) == {i \in 1..Len(c) : c[i].k = "call"}
-NC(c) == Cardinality(CallIdxs(c))
-TopCallIdx(c) == CHOOSE i \in CallIdxs(c) : \A j \in CallIdxs(c) : j <= i
-ActFn(c) == envs[c[TopCallIdx(c)].env].fn
-\* frames of the current activation
-ActFrames(c) == {c[j] : j \in TopCallIdx(c)..Len(c)}
-ExcPending(c) == \E f \in ActFrames(c) : f.k = "finally" /\ f.comp[1] = "exc"
-
-G(f)      == Claims[pid][f]
 Edges(f)  == {<<e[1], e[2]>> : e \in Range(G(f).edges)}
 ExitS(f)  == Range(G(f).exit)
 ErrorS(f) == Range(G(f).error)
 
 (* ---- static clauses ------------------------------------------------------ *)
-NNodes == Len(P.nodes)
-Own(s) == {n \in 1..NNodes : s \in Range(P.anc[n])}
 Stmts(f) == {s \in 1..NNodes : ND(s).fn = f /\ ND(s).kind \in {"if", "while", "for", "try"}}
 SpecNext(f, s) == {e[2] : e \in {x \in Edges(f) : x[1] \in Own(s) /\ x[2] \notin Own(s)}}
 SpecPrev(f, s) == {e[1] : e \in {x \in Edges(f) : x[1] \notin Own(s) /\ x[2] \in Own(s)}}
